@@ -403,6 +403,115 @@ template <class C> struct Reparse {
     }
 };
 
+// ------------------------------------------------------------------------------------------------
+// RFC 3986 Appendix A, URI-reference, as a recogniser of its own (the statement of C07 says "valid URI reference"; asking the
+// library's own parser alone would let a parser that accepts too much vouch for itself). Works on the narrowed text: a code point
+// above 255 appears as "{U+...}" and is rejected through its braces.
+namespace rfc {
+inline bool alpha(unsigned char c) { return (c >= 'a' && c <= 'z') || (c >= 'A' && c <= 'Z'); }
+inline bool digit(unsigned char c) { return c >= '0' && c <= '9'; }
+inline bool hexd(unsigned char c) { return digit(c) || (c >= 'a' && c <= 'f') || (c >= 'A' && c <= 'F'); }
+inline bool unres(unsigned char c) { return alpha(c) || digit(c) || c == '-' || c == '.' || c == '_' || c == '~'; }
+inline bool subdelim(unsigned char c) { return c && strchr("!$&'()*+,;=", c) != nullptr; }
+// chars: every char is unreserved / pct-encoded / sub-delim / one of `extra`
+inline bool chars(const std::string& s, const char* extra) {
+    for (size_t i = 0; i < s.size(); i++) {
+        unsigned char c = (unsigned char)s[i];
+        if (unres(c) || subdelim(c) || (c && strchr(extra, c))) continue;
+        if (c == '%' && i + 2 < s.size() + 0 && hexd((unsigned char)s[i + 1]) && hexd((unsigned char)s[i + 2])) { i += 2; continue; }
+        return false;
+    }
+    return true;
+}
+inline bool dec_octet(const std::string& s) {
+    if (s.empty() || s.size() > 3) return false;
+    for (char c : s) if (!digit((unsigned char)c)) return false;
+    if (s.size() > 1 && s[0] == '0') return false;
+    return atoi(s.c_str()) <= 255;
+}
+inline bool ipv4(const std::string& s) {
+    size_t pos = 0; int n = 0;
+    for (;;) { size_t d = s.find('.', pos); std::string o = s.substr(pos, d == std::string::npos ? std::string::npos : d - pos); if (!dec_octet(o)) return false; n++; if (d == std::string::npos) break; pos = d + 1; }
+    return n == 4;
+}
+inline bool h16(const std::string& s) { if (s.empty() || s.size() > 4) return false; for (char c : s) if (!hexd((unsigned char)c)) return false; return true; }
+inline bool ipv6(const std::string& s) {
+    // split on "::" (at most one)
+    size_t z = s.find("::");
+    if (z != std::string::npos && s.find("::", z + 1) != std::string::npos) return false;
+    auto groups = [](const std::string& t, std::vector<std::string>& out) { out.clear(); if (t.empty()) return true; size_t pos = 0; for (;;) { size_t d = t.find(':', pos); out.push_back(t.substr(pos, d == std::string::npos ? std::string::npos : d - pos)); if (d == std::string::npos) break; pos = d + 1; } return true; };
+    std::vector<std::string> a, b;
+    if (z == std::string::npos) groups(s, a); else { groups(s.substr(0, z), a); groups(s.substr(z + 2), b); }
+    // the last group overall may be an IPv4 address (counts as two)
+    std::vector<std::string>& last = (z == std::string::npos || !b.empty()) ? (z == std::string::npos ? a : b) : a;
+    int count = 0; bool v4 = false;
+    for (auto* v : {&a, &b}) for (size_t i = 0; i < v->size(); i++) {
+        const std::string& g = (*v)[i];
+        bool is_last = (v == &last) && i + 1 == v->size() && !(z != std::string::npos && v == &a && !b.empty());
+        if (is_last && g.find('.') != std::string::npos) { if (!ipv4(g)) return false; v4 = true; count += 2; }
+        else { if (!h16(g)) return false; count++; }
+    }
+    (void)v4;
+    if (z == std::string::npos) return count == 8;
+    return count <= 7;
+}
+inline bool ip_literal(const std::string& s) {   // without the brackets
+    if (!s.empty() && (s[0] == 'v' || s[0] == 'V')) {
+        size_t dot = s.find('.');
+        if (dot == std::string::npos || dot < 2 || dot + 1 >= s.size()) return false;
+        for (size_t i = 1; i < dot; i++) if (!hexd((unsigned char)s[i])) return false;
+        for (size_t i = dot + 1; i < s.size(); i++) { unsigned char c = (unsigned char)s[i]; if (!(unres(c) || subdelim(c) || c == ':')) return false; }
+        return true;
+    }
+    return ipv6(s);
+}
+inline bool authority(const std::string& a) {
+    std::string rest = a;
+    size_t at = rest.find('@');
+    if (at != std::string::npos) { if (!chars(rest.substr(0, at), ":")) return false; rest = rest.substr(at + 1); }
+    std::string host = rest, port;
+    if (!rest.empty() && rest[0] == '[') {
+        size_t rb = rest.find(']');
+        if (rb == std::string::npos) return false;
+        if (!ip_literal(rest.substr(1, rb - 1))) return false;
+        std::string after = rest.substr(rb + 1);
+        if (!after.empty()) { if (after[0] != ':') return false; port = after.substr(1); }
+    } else {
+        size_t c = rest.rfind(':');
+        if (c != std::string::npos) { host = rest.substr(0, c); port = rest.substr(c + 1); }
+        if (!chars(host, "")) return false;   // reg-name (an IPv4 address is a reg-name too, syntactically)
+    }
+    for (char c : port) if (!digit((unsigned char)c)) return false;
+    return true;
+}
+inline bool uri_reference(const std::string& t, std::string* why) {
+    std::string s = t;
+    size_t h = s.find('#');
+    if (h != std::string::npos) { if (!chars(s.substr(h + 1), ":@/?")) { *why = "fragment"; return false; } s = s.substr(0, h); }
+    size_t q = s.find('?');
+    if (q != std::string::npos) { if (!chars(s.substr(q + 1), ":@/?")) { *why = "query"; return false; } s = s.substr(0, q); }
+    // scheme?
+    bool has_scheme = false;
+    size_t colon = s.find(':'), slash = s.find('/');
+    if (colon != std::string::npos && (slash == std::string::npos || colon < slash)) {
+        // a scheme only if the part before ':' has scheme syntax; otherwise it must be a relative-ref, where a first segment with ':' is illegal
+        std::string sc = s.substr(0, colon);
+        bool ok = !sc.empty() && alpha((unsigned char)sc[0]);
+        for (char c : sc) { unsigned char u = (unsigned char)c; if (!(alpha(u) || digit(u) || u == '+' || u == '-' || u == '.')) ok = false; }
+        if (!ok) { *why = "first path segment of a relative reference contains ':' (or malformed scheme)"; return false; }
+        has_scheme = true; s = s.substr(colon + 1);
+    }
+    (void)has_scheme;
+    if (s.compare(0, 2, "//") == 0) {
+        size_t e = s.find('/', 2);
+        if (!authority(s.substr(2, e == std::string::npos ? std::string::npos : e - 2))) { *why = "authority"; return false; }
+        s = e == std::string::npos ? "" : s.substr(e);
+    }
+    if (!chars(s, ":@/")) { *why = "path"; return false; }
+    return true;
+}
+}  // namespace rfc
+
 // C07 invariants on the object in slot s produced by op i. Returns false if a violation was raised.
 template <class C> bool roundtrip_check(Exec<C>& ex, int i, int s, Stats& st) {
     const typename Api<C>::Uri* u = ex.us[s].u;
@@ -414,7 +523,9 @@ template <class C> bool roundtrip_check(Exec<C>& ex, int i, int s, Stats& st) {
     Reparse<C> rp; rp.run(ex, i, text);
     if (rp.aborted) return false;
     std::string what;
-    if (rp.rc != URI_SUCCESS) what = "[reparse-fails] recomposed text \"" + hexesc(text) + "\" is not a valid URI reference (rc " + std::to_string(rp.rc) + ")";
+    { std::string why; if (!rfc::uri_reference(text, &why)) what = "[not-a-uri-reference] recomposed text \"" + hexesc(text) + "\" is not a URI reference by the RFC 3986 grammar (" + why + "), whatever the library's own parser says (rc " + std::to_string(rp.rc) + ")"; }
+    if (!what.empty()) {}
+    else if (rp.rc != URI_SUCCESS) what = "[reparse-fails] recomposed text \"" + hexesc(text) + "\" is not a valid URI reference (rc " + std::to_string(rp.rc) + ")";
     else {
         const UriView& y = rp.view;
         if (x.scheme != y.scheme) what = std::string(x.scheme.present ? "[scheme-changed]" : "[path-read-as-scheme]") + " scheme held " + x.scheme.str() + ", re-read " + y.scheme.str();
